@@ -122,17 +122,17 @@ func loadKnownFindings() []KnownFinding {
 
 type proveOpts struct {
 	prop, tier, only, dump string
-	verbose  bool
-	overlay  map[string][]byte
-	quiet    bool
-	noEvidence bool
+	verbose                bool
+	overlay                map[string][]byte
+	quiet                  bool
+	noEvidence             bool
 }
 
 type proveResult struct {
-	code   int
-	failed []string // names of undischarged obligations
+	code       int
+	failed     []string // names of undischarged obligations
 	nObl, nDis int
-	lines  []string
+	lines      []string
 }
 
 func cmdProve(args []string) int {
@@ -278,9 +278,9 @@ func runProve(po proveOpts) (res proveResult) {
 	var funcsEv []map[string]any
 	trusted := map[string]bool{}
 	assumptions := map[string]bool{
-		"partial correctness: termination is proved only for loops with a decreases clause": true,
+		"partial correctness: termination is proved only for loops with a decreases clause":            true,
 		"sequential execution of each function under contract (no interleaving with other goroutines)": true,
-		"functions outside /repo behave as their trusted contracts in /verif/specs/stdlib.gvc state": true,
+		"functions outside /repo behave as their trusted contracts in /verif/specs/stdlib.gvc state":   true,
 	}
 	toolErrors := 0
 	vacuityBad := 0
@@ -289,7 +289,25 @@ func runProve(po proveOpts) (res proveResult) {
 		fe := map[string]any{"function": v.fnName, "mode": v.mode}
 		var obNames []string
 		fOb, fDis := 0, 0
+		npath, npathUnsat := 0, 0
 		for _, o := range v.obligs {
+			if o.Class == "vacuity-path" {
+				npath++
+				if o.Verdict == "unsat" {
+					npathUnsat++
+				}
+			}
+		}
+		if npath > 0 && npath == npathUnsat {
+			vacuityBad++
+			lines = append(lines, fmt.Sprintf("ERROR vacuous verification: every return path of %s has an unsatisfiable path condition", v.fnName))
+		}
+		fe["return_paths"] = npath
+		fe["return_paths_infeasible"] = npathUnsat
+		for _, o := range v.obligs {
+			if o.Class == "vacuity-path" {
+				continue
+			}
 			if o.Class == "vacuity" {
 				if o.Verdict == "unsat" {
 					vacuityBad++
@@ -385,15 +403,15 @@ func runProve(po proveOpts) (res proveResult) {
 		"property_id": prop, "tier": *tier, "seed": seed, "level": "proof",
 		"coverage": map[string]any{
 			"obligations": nObl, "discharged": nDis,
-			"checker_cmd":  fmt.Sprintf("./check prove %s --tier %s", prop, *tier),
-			"trusted_base": tb,
-			"samples":      samples,
+			"checker_cmd":              fmt.Sprintf("./check prove %s --tier %s", prop, *tier),
+			"trusted_base":             tb,
+			"samples":                  samples,
 			"functions_under_contract": funcsEv,
-			"solver_ms":    solverMs,
-			"backends":     "z3-new 5.1.0 first (1.5 s), then z3-new, cvc5 1.0.3, z3 4.8.12 raced; first definite answer wins",
-			"timeout_ms":   timeout,
-			"explanation":  "every obligation is generated from /repo's current source by symbolic execution of the real function bodies against the contracts in zz_verif_contracts.go; callees are replaced by their contracts",
-			"bounded":      []string{},
+			"solver_ms":                solverMs,
+			"backends":                 "z3-new 5.1.0 first (1.5 s), then z3-new, cvc5 1.0.3, z3 4.8.12 raced; first definite answer wins",
+			"timeout_ms":               timeout,
+			"explanation":              "every obligation is generated from /repo's current source by symbolic execution of the real function bodies against the contracts in zz_verif_contracts.go; callees are replaced by their contracts",
+			"bounded":                  []string{},
 		},
 		"assumptions": sortedProps(assumptions),
 		"wall_s":      wall,
